@@ -50,7 +50,7 @@ PROPERTY_OF_DEVIATION = {
 PROPERTY_OF_CLAUSE = {
     'accept': 'C06', 'tree': 'C06', 'kind': 'C16', 'class': 'C16', 'token': 'C20', 'line': 'C20',
     'illegalchar': 'C16', 'look': 'C11', 'residue': 'C11',
-    'lex.tokens': 'C06', 'lex.err': 'C16', 'lex.errchar': 'C16', 'lex.residue': 'C11',
+    'lex.tokens': 'C06', 'lex.lineno': 'C11', 'lex.err': 'C16', 'lex.errchar': 'C16', 'lex.residue': 'C11',
     'names.list': 'C18', 'names.err': 'C18', 'names.intree': 'C18', 'layout.want': 'C15',
     'grammar-constant': 'C06',
 }
@@ -669,7 +669,7 @@ def _worker_lex_a(args):
         toks, err, res = im.tokens(text)
         names, nerr = im.names(text)
         clause = None
-        sp_toks = [{'type': t['type'], 'text': t['text'], 'val': t['val'], 'lineno': t['lineno']} for t in rec['toks']]
+        sp_toks = [{'type': t['type'], 'text': t['text'], 'val': t['val']} for t in rec['toks']]
         ob_toks = []
         for t in toks:
             v = t['val']
@@ -678,19 +678,23 @@ def _worker_lex_a(args):
                 if value_to_json(d)['digs'] != v.get('digs') or value_to_json(d)['exp'] != v.get('exp') or not v.get('sub'):
                     clause = 'lex.tokens'
                 v = t['text']
-            ob_toks.append({'type': t['type'], 'text': t['text'], 'val': v, 'lineno': t['lineno']})
+            ob_toks.append({'type': t['type'], 'text': t['text'], 'val': v})
         if clause is None and sp_toks != ob_toks:
             clause = 'lex.tokens'
         elif clause is None and rec['err'] != err['t']:
             clause = 'lex.err'
         elif clause is None and rec['err'] == 'illegal' and (rec['errch'] != err['ch'] or rec['errpos'] != err['pos']):
             clause = 'lex.errchar'
-        elif clause is None and rec['res'] != res:
-            clause = 'lex.residue'
         elif clause is None and rec['names'] != names:
             clause = 'names.list'
         elif clause is None and (rec['err'] == 'illegal') != (nerr == 1):
             clause = 'names.err'
+        # internal observables last (they never mask a clause a property speaks about): the lexer's own
+        # line counter per token and its residual state
+        elif clause is None and [t['lineno'] for t in rec['toks']] != [t['lineno'] for t in toks]:
+            clause = 'lex.lineno'
+        elif clause is None and rec['res'] != res:
+            clause = 'lex.residue'
         if clause:
             mism.append(mk_mismatch(clause, text,
                                     {'toks': [(t['type'], uncps(t['text']), t['lineno']) for t in rec['toks']],
